@@ -193,7 +193,7 @@ def discrete_models(kind):
                                                probs=jnp.asarray([0.1, 0.2, 0.7])), name="n0")
         y = lsl.obs(jnp.asarray([2.5, 3.5], jnp.float32), lsl.Dist(tfd.Normal, loc=z, scale=1.0), name="y")
         return lsl.GraphBuilder().add(y).build_model(), None, [1.0, 2.0, 3.0]
-    if kind == "finite_via_named_var":
+    if kind in ("finite_via_named_var", "finite_grid_in_state"):
         grid = lsl.Var(jnp.asarray([-1.0, 0.5, 2.0]), name="value_grid")
         z = lsl.Var(jnp.asarray(0.5), lsl.Dist(tfd.FiniteDiscrete, outcomes=grid, probs=jnp.asarray([0.5, 0.3, 0.2])), name="z")
         mu = lsl.Var(lsl.Calc(lambda z: 0.3 * z, z), name="mu")          # named deterministic variable in between
@@ -250,7 +250,7 @@ def discrete_events(rng, kind, nkeys=64):
     # the value of the *variable* is read from (and, for the logits, written to) its value node by that node's name
     vnode = model.vars[vname].value_node.name
 
-    def block(state):
+    def block(state, outcomes=outcomes):
         logits = [float(interface.log_prob(interface.update_state({vnode: jnp.asarray(o, dtype)}, state))) for o in outcomes]
         keys = [jax.random.PRNGKey(rng.randrange(1 << 30)) for _ in range(nkeys)]
         draws = [float(st[vnode].value) for st in (_transition(kernel, interface, k, state) for k in keys)]
@@ -274,6 +274,13 @@ def discrete_events(rng, kind, nkeys=64):
                 "draws": [fstr(x) for x in draws], "draws_replay": [fstr(x) for x in replay], "guard_rejects": bool(guard)}
 
     evs = [block(state)]
+    if kind == "finite_grid_in_state":
+        # the outcome grid is a variable of the model: the state that is sampled holds another grid than the model did
+        # when the kernel was made (the outcomes were not given, they are those of the prior)
+        model.vars["value_grid"].value = jnp.asarray([-1.0, 0.5, 3.0])
+        model.update()
+        evs.append(block(model.state, [-1.0, 0.5, 3.0]))
+        return evs
     # the same kernel object, called again (eagerly) on another model state: other data behind the sampled variable
     for dname in ("y", "y1", "ydata"):
         if dname in model.vars and not model.vars[dname].weak:
